@@ -258,3 +258,84 @@ Example C19_overlapping_profile_read_example :
   overlapping_profile (fun r k => py_equal_ranges r k 2) (fun reg f => py_contains reg f) 2 [(3,9);(12,20);(30,40)] (3,40) [(1,3);(5,9);(12,21);(50,60)] (1,60) (-1) (-1)
   = Some ([-1; 1; -1], [-1; -1; 1; 0], (0, 3)).
 Proof. vm_compute. repeat split; try discriminate; try (intros H; discriminate H). Qed.
+
+(* ---- tie to the source: the simplest LOOP functions of src/common.py are regenerated from the source on every check
+        (tools/translate_loops.py -> gen/Loops.v: a fail-closed fold fragment: one `for` over a list / range(len(l)) as fold_left, accumulators as the
+        state, `if c: return e` at the top of the body as an option in the state, list indexing as nth when in range by construction and as
+        Python indexing with wrap-around plus an exception-freedom condition py_<f>_pre otherwise) and PROVED equal to the hand-written models for
+        all inputs.  One bridge library per function, loaded inside the proof, so that an edit of one function in the source is reported against
+        its own theorem and everything above is still checked. *)
+From IQ.gen Require Loops.
+From IQ Require Exons ProfileHelpers.
+Theorem C19_intervals_total_length_is_the_source : forall l, Intervals.total l = Loops.py_intervals_total_length l.
+Proof.
+From IQ Require LoopTotalBridge.
+exact LoopTotalBridge.total_is_the_source. Qed.
+Print Assumptions C19_intervals_total_length_is_the_source.
+(* junctions_from_blocks: both copies of the hand model (Intervals.v for C19, Exons.v for C03 / C14) *)
+Theorem C19_junctions_from_blocks_is_the_source : forall l,
+  Intervals.jfb l = Loops.py_junctions_from_blocks l /\ Exons.jfb l = Loops.py_junctions_from_blocks l.
+Proof.
+From IQ Require LoopJfbBridge.
+exact (fun l => conj (LoopJfbBridge.jfb_is_the_source l) (eq_trans (LoopJfbBridge.exons_jfb_is_intervals_jfb l) (LoopJfbBridge.jfb_is_the_source l))). Qed.
+Print Assumptions C19_junctions_from_blocks_is_the_source.
+(* get_exons: the source pads the intron list with (-inf, start - 1) and (end + 1, inf); the translation takes the two infinities as integer
+   parameters and the model equals it for EVERY value of them (the result does not read them) *)
+Theorem C19_get_exons_is_the_source : forall inf_lo inf_hi r J,
+  Intervals.get_exons r J = Loops.py_get_exons inf_lo inf_hi r J /\ Exons.get_exons r J = Loops.py_get_exons inf_lo inf_hi r J.
+Proof.
+From IQ Require LoopJfbBridge.
+exact (fun a b r J => conj (LoopJfbBridge.get_exons_is_the_source a b r J)
+                           (eq_trans (LoopJfbBridge.exons_get_exons_is_intervals_get_exons r J) (LoopJfbBridge.get_exons_is_the_source a b r J))). Qed.
+Print Assumptions C19_get_exons_is_the_source.
+(* the two exon accessors: value when no exception is possible, IndexError / AssertionError exactly otherwise *)
+Theorem C19_get_following_exon_is_the_source : forall reg J p,
+  Intervals.following_exon reg J p =
+  if Loops.py_get_following_exon_from_junctions_pre reg J p then Ok (Loops.py_get_following_exon_from_junctions reg J p) else Raises IndexError.
+Proof.
+From IQ Require LoopFollowingBridge.
+exact LoopFollowingBridge.following_exon_is_the_source. Qed.
+Print Assumptions C19_get_following_exon_is_the_source.
+Theorem C19_get_preceding_exon_is_the_source : forall reg J p,
+  Intervals.preceding_exon reg J p =
+  if negb (p <=? Z.of_nat (length J)) then Raises AssertionError
+  else if Loops.py_get_preceding_exon_from_junctions_pre reg J p then Ok (Loops.py_get_preceding_exon_from_junctions reg J p) else Raises IndexError.
+Proof.
+From IQ Require LoopPrecedingBridge.
+exact LoopPrecedingBridge.preceding_exon_is_the_source. Qed.
+Print Assumptions C19_get_preceding_exon_is_the_source.
+
+(* ---- profile helpers without a hand model: the regenerated function, under the `assert len(a) == len(b)` of the source, is the obvious
+        position-wise function of the two profiles (ProfileHelpers.v: filter / forallb / existsb / map over the zipped profiles) *)
+Theorem C19_count_both_present_features_spec : forall p1 p2, Loops.py_count_both_present_features_pre p1 p2 = true ->
+  Loops.py_count_both_present_features p1 p2 = Z.of_nat (length (filter (fun p => (fst p =? 1) && (snd p =? 1)) (combine p1 p2))) /\
+  0 <= Loops.py_count_both_present_features p1 p2 <= Z.of_nat (length p1).
+Proof.
+From IQ Require ProfileCountBothSpec.
+exact (fun p1 p2 H => conj (ProfileCountBothSpec.count_both_present_spec p1 p2 H) (ProfileCountBothSpec.count_both_present_bounds p1 p2 H)). Qed.
+Print Assumptions C19_count_both_present_features_spec.
+Theorem C19_all_features_present_spec : forall iso read, Loops.py_all_features_present_pre iso read = true ->
+  Loops.py_all_features_present iso read = forallb (fun p => negb (fst p =? 1) || (snd p =? 1)) (combine iso read).
+Proof.
+From IQ Require ProfileAllPresentSpec.
+exact ProfileAllPresentSpec.all_features_present_spec. Qed.
+Print Assumptions C19_all_features_present_spec.
+Theorem C19_has_inconsistent_features_spec : forall read gene, Loops.py_has_inconsistent_features_pre read gene = true ->
+  Loops.py_has_inconsistent_features read gene = existsb (fun p => negb (fst p =? snd p) && negb (fst p =? 0)) (combine read gene).
+Proof.
+From IQ Require ProfileInconsistentSpec.
+exact ProfileInconsistentSpec.has_inconsistent_features_spec. Qed.
+Print Assumptions C19_has_inconsistent_features_spec.
+Theorem C19_mask_profile_spec : forall read truth, Loops.py_mask_profile_pre read truth = true ->
+  Loops.py_mask_profile read truth = map (fun p => if snd p =? 1 then fst p else 0) (combine read truth) /\
+  length (Loops.py_mask_profile read truth) = length truth.
+Proof.
+From IQ Require ProfileMaskSpec.
+exact ProfileMaskSpec.mask_profile_spec. Qed.
+Print Assumptions C19_mask_profile_spec.
+Theorem C19_get_blocks_from_profile_spec : forall features profile, Loops.py_get_blocks_from_profile_pre features profile = true ->
+  Loops.py_get_blocks_from_profile features profile = map fst (filter (fun p => snd p =? 1) (combine features profile)).
+Proof.
+From IQ Require ProfileBlocksSpec.
+exact ProfileBlocksSpec.get_blocks_from_profile_spec. Qed.
+Print Assumptions C19_get_blocks_from_profile_spec.
